@@ -234,8 +234,33 @@ Proof.
     + rewrite Z.min_r by lia. destruct (s <? 0) eqn:E3; [lia|]. destruct (zlen l <? s) eqn:E4; [lia|]. reflexivity.
     + rewrite Z.min_l by lia. destruct (s <? 0) eqn:E3; [lia|]. destruct (s + n <? s) eqn:E4; [lia|]. reflexivity.
 Qed.
-Lemma slice_refuted : exists l s, m_slice [VArr l; VInt s] = Panic /\ s_slice [VArr l; VInt s] = SOkArray.
+Lemma slice_refuted : exists l s, m_slice [VArr l; VInt s] = Panic /\ s_slice [VArr l; VInt s] = SVal (VArr l).
 Proof. exists [VInt 1; VInt 2], (-1). split; reflexivity. Qed.
+(* a window that starts before the first element is clipped, not shifted *)
+Lemma slice_fx_negative_start l s n : s < 0 ->
+  m_slice_fx [VArr l; VInt s] = Ok (VArr l) /\
+  (0 < n -> m_slice_fx [VArr l; VInt s; VInt n] = Ok (VArr (firstn (Z.to_nat (s + n)) l))).
+Proof.
+  intros Hs.
+  assert (Hlen : 0 <= zlen l) by (unfold zlen; lia).
+  split.
+  - cbn. unfold arr_slice_fx.
+    destruct (s >=? zlen l) eqn:E1; [lia|].
+    destruct (zlen l >? zlen l) eqn:E2; [lia|].
+    destruct (s <? 0) eqn:E3; [|lia].
+    destruct (zlen l <? 0) eqn:E4; [lia|].
+    cbn [Z.to_nat skipn]. rewrite Z.sub_0_r. unfold zlen. rewrite Nat2Z.id. now rewrite firstn_all.
+  - intros Hn. cbn. destruct (n >? 0) eqn:En; [|lia]. unfold arr_slice_fx.
+    destruct (s >=? zlen l) eqn:E1; [lia|].
+    destruct (s <? 0) eqn:E3; [|lia].
+    cbn [Z.to_nat skipn].
+    destruct (s + n >? zlen l) eqn:E2.
+    + destruct (zlen l <? 0) eqn:E4; [lia|]. rewrite Z.sub_0_r. unfold zlen in *. rewrite Nat2Z.id.
+      rewrite firstn_all. rewrite firstn_all2 by lia. reflexivity.
+    + destruct (s + n <? 0) eqn:E4.
+      * rewrite Z.sub_0_r. replace (Z.to_nat (s + n)) with 0%nat by lia. reflexivity.
+      * now rewrite Z.sub_0_r.
+Qed.
 Lemma slice_fx_never_fails l s : exists r, m_slice_fx [VArr l; VInt s] = Ok (VArr r).
 Proof. cbn. eauto. Qed.
 Lemma slice_fx_spec_from l s : 0 <= s ->
